@@ -80,9 +80,16 @@ SecondRows == {Row(i, a, b) : i \in {1, 3}, a \in {N, 1}, b \in {0, 5}} \cup {Ro
 
 Init == rows = {} /\ tomb = {} /\ reop = FALSE /\ txn = <<>> /\ conf = "default" /\ nops = 0 /\ hist = <<>>
 
+\* ids of the rows a statement reads-and-writes (whether or not their values change): what a crash in the middle of
+\* the statement may leave half done
+Touched(op) == CASE op.k = "insert" -> {op.rows[j][1] : j \in 1..Len(op.rows)}
+                 [] op.k = "update" -> {r[1] : r \in {r2 \in rows : Matches(r2, op.p)}} \cup (IF op.c = "id" THEN {op.v} ELSE {})
+                 [] op.k = "delete" -> {r[1] : r \in {r2 \in rows : Matches(r2, op.p)}}
+                 [] op.k = "truncate" -> {r[1] : r \in rows}
+                 [] OTHER -> {}
 Step(op, res) == /\ nops' = nops + 1
                  /\ (op.k # "setconfig" => UNCHANGED conf)
-                 /\ hist' = Append(hist, [op |-> op, ok |-> res.ok, n |-> res.n, rows |-> res.rows, intxn |-> txn' # <<>>])
+                 /\ hist' = Append(hist, [op |-> op, ok |-> res.ok, n |-> res.n, rows |-> res.rows, intxn |-> txn' # <<>>, touched |-> Touched(op)])
 
 Stmt(op, res) == /\ nops < MaxOps
                  /\ rows' = res.rows
